@@ -12,6 +12,7 @@ import (
 	dtlsflight "github.com/pion/dtls/v3/internal/flight"
 	dtlsflight12 "github.com/pion/dtls/v3/internal/flight/flight12"
 	dtlsstate "github.com/pion/dtls/v3/internal/state"
+	"github.com/pion/dtls/v3/internal/vtrace"
 	"github.com/pion/dtls/v3/pkg/protocol/alert"
 	"github.com/pion/dtls/v3/pkg/protocol/handshake"
 )
@@ -98,6 +99,10 @@ func (s *fsm12) Run(ctx context.Context, conn Conn, initialState State) error {
 				s.currentFlight.String(),
 				state.String(),
 			)
+			if vtrace.Enabled {
+				vtrace.Emit(s.cfg, "fsm.state", "ver", 12, "client", s.state.IsClient, "flight", s.currentFlight.String(),
+					"state", state.String(), "interval", int64(s.retransmitInterval), "retransmit", s.retransmit)
+			}
 		},
 		s.prepare,
 		s.send,
@@ -169,6 +174,10 @@ func (s *fsm12) wait(ctx context.Context, conn Conn) (State, error) { //nolint:g
 	for {
 		select {
 		case state := <-conn.RecvHandshake():
+			if vtrace.Enabled {
+				vtrace.Emit(s.cfg, "fsm.recv", "client", s.state.IsClient, "flight", s.currentFlight.String(),
+					"isRetransmit", state.IsRetransmit)
+			}
 			if !state.IsRetransmit {
 				// only reset retransmit interval on non-retransmit state
 				// https://github.com/pion/dtls/issues/758
@@ -189,6 +198,10 @@ func (s *fsm12) wait(ctx context.Context, conn Conn) (State, error) { //nolint:g
 				}
 
 				return StateErrored, dtlserrors.ErrInvalidFlight
+			}
+			if vtrace.Enabled {
+				vtrace.Emit(s.cfg, "fsm.parsed", "client", s.state.IsClient, "flight", s.currentFlight.String(),
+					"next", nextFlight.String(), "alert", dtlsAlert != nil, "err", err != nil)
 			}
 			close(state.Done)
 			if dtlsAlert != nil {
@@ -218,16 +231,35 @@ func (s *fsm12) wait(ctx context.Context, conn Conn) (State, error) { //nolint:g
 			return StatePreparing, nil
 
 		case <-retransmitTimer.C:
+			if vtrace.Enabled {
+				return s.traceTimeout(handleRetransmitTimeout(s.retransmit, &s.retransmitInterval, s.cfg), false), nil
+			}
+
 			return handleRetransmitTimeout(s.retransmit, &s.retransmitInterval, s.cfg), nil
+		case <-vtrace.TimeoutC(s.cfg):
+			return s.traceTimeout(handleRetransmitTimeout(s.retransmit, &s.retransmitInterval, s.cfg), true), nil
 		case <-ctx.Done():
 			return handleWaitCancellation(&s.retransmitInterval, s.cfg, ctx.Err())
 		}
 	}
 }
 
+func (s *fsm12) traceTimeout(next State, virtual bool) State {
+	if vtrace.Enabled {
+		vtrace.Emit(s.cfg, "fsm.timeout", "client", s.state.IsClient, "flight", s.currentFlight.String(),
+			"retransmit", s.retransmit, "interval", int64(s.retransmitInterval), "next", next.String(), "virtual", virtual)
+	}
+
+	return next
+}
+
 func (s *fsm12) finish(ctx context.Context, c Conn) (State, error) {
 	select {
 	case state := <-c.RecvHandshake():
+		if vtrace.Enabled {
+			vtrace.Emit(s.cfg, "fsm.finrecv", "client", s.state.IsClient, "flight", s.currentFlight.String(),
+				"isRetransmit", state.IsRetransmit)
+		}
 		close(state.Done)
 		if s.state.IsClient {
 			return StateFinished, nil
